@@ -190,8 +190,13 @@ func ReadOptions(r *packet.Reader) Options {
 		tag := binary.BigEndian.Uint16(temp[:2])
 		length := binary.BigEndian.Uint16(temp[2:4])
 
-		// read left value
-		value := make([]byte, length)
+		// read left value. A truncated value fails in ReadBytes below either way,
+		// so never allocate more than the remaining input can fill.
+		size := int(length)
+		if remain := r.Remaining(); size > remain {
+			size = remain + 1
+		}
+		value := make([]byte, size)
 		r.ReadBytes(value)
 		if e := r.Error(); e != nil {
 			if errors.Is(r.Error(), io.EOF) {
